@@ -20,6 +20,9 @@ func Unmarshal(b []byte, ty cty.Type) (cty.Value, error) {
 	dec := msgpack.NewDecoder(r)
 
 	var path cty.Path
+	// Optional-attribute annotations belong to type constraints; the type of a
+	// value never carries them (they play no part in decoding either).
+	ty = ty.WithoutOptionalAttributesDeep()
 	return unmarshal(dec, ty, path)
 }
 
@@ -348,5 +351,5 @@ func unmarshalDynamic(dec *msgpack.Decoder, path cty.Path) (cty.Value, error) {
 		return cty.DynamicVal, path.NewError(err)
 	}
 
-	return unmarshal(dec, ty, path)
+	return unmarshal(dec, ty.WithoutOptionalAttributesDeep(), path)
 }
